@@ -6,6 +6,7 @@ import Nject.Validate
 import Nject.Helpers
 import Nject.Condense
 import Nject.Reorder
+import Nject.PostAct
 /-
   Line-protocol driver: reads the case blocks the Go harness writes, rebuilds the compiled
   chain from the implementation's own S7 dump, runs `Exec` and `Spec` with the scripted
@@ -470,6 +471,47 @@ def runSaveToLine (toks : List String) : String :=
   let f := ",".intercalate (st.map fun | some v => toString v | none => "unset")
   s!"msaveto {i} ok stored={f}"
 
+
+/-! ### post-actions -/
+
+def parsePTag (s : String) : PTag :=
+  if s == "skip" || s == "-" then .skip else if s == "nofill" then .nofill else if s == "fill" then .fill
+  else if s.startsWith "pa" then .custom ((s.drop 2).toString.toNat?.getD 0) else .unknown
+
+def parsePFields (s : String) : List PField :=
+  if s == "-" || s == "" then [] else
+  (s.splitOn ";").map fun f =>
+    match f.splitOn ":" with
+    | [e, t, tags] => { exported := e == "X", ty := t.toNat?.getD 0,
+                        tags := if tags == "none" then [] else (tags.splitOn "+").map parsePTag }
+    | _ => { exported := false, ty := 0, tags := [] }
+
+def parseFn (s : String) : FnKind :=
+  if s == "anyval" then .anyval else if s == "anyopen" then .anyopen
+  else if s.startsWith "ptr" then .ptr ((s.drop 3).toString.toNat?.getD 0)
+  else .val ((s.drop 3).toString.toNat?.getD 0)
+
+def parsePAOpts (s : String) : List (Nat × PAOpt) :=
+  if s == "-" || s == "" then [] else
+  (s.splitOn ",").filterMap fun e =>
+    match e.splitOn "/" with
+    | [k, fn, fl] => some (k.toNat?.getD 0, { fn := parseFn fn, fillSet := fl != "-", fill := fl == "t" })
+    | _ => none
+
+def runPostActLine (toks : List String) : String :=
+  let i := toks.getD 1 "?"
+  let fields := parsePFields (field toks "fields")
+  let opts : PAOptions := { byTag := parsePAOpts (field toks "bytag"), byName := parsePAOpts (field toks "byname"),
+                            byType := (parsePAOpts (field toks "bytype")).map (·.2), pointerModel := fieldNat toks "ptr" == 1 }
+  match paPlan opts fields with
+  | none => s!"mpostact {i} err"
+  | some plan =>
+    let (log, final) := paRun plan fields (fun t => 1000 + t) (fun t => 5000 + t)
+    let kindS := fun (k : PAKind) => match k with | .tag => "tag" | .name => "name" | .type => "type"
+    let acts := ",".intercalate (log.map fun (a, seen) => s!"{kindS a.kind}:{a.ty}:{if a.ptr then "p" else "v"}:{seen}")
+    let exportedFinal := (fields.zip final).filterMap fun (f, v) => if f.exported then some (toString v) else none
+    s!"mpostact {i} ok inputs={fmtTys ((fields.zip plan.filled).filterMap fun (f, b) => if b then some f.ty else none)} acts={if acts.isEmpty then "-" else acts} final={if exportedFinal.isEmpty then "-" else ",".intercalate exportedFinal}"
+
 def runCondenseFlows (a : CaseAcc) : String :=
   match condenseFlows stdTyInfo a.pdescs.reverse with
   | none => s!"mflows {a.n} none"
@@ -503,6 +545,7 @@ def stepLine (a : CaseAcc) (line : String) : CaseAcc × List String :=
   | "op" :: kind :: vals :: _ => ({ a with ops := (kind, parseVals vals) :: a.ops }, [])
   | "end" :: _ => ({}, runCase a)
   | "cflows" :: _ => (a, [runCondenseFlows a])
+  | "postact" :: _ => (a, [runPostActLine toks])
   | "curry" :: _ => (a, [runCurryLine toks])
   | "filler" :: _ => (a, [runFillerLine toks])
   | "saveto" :: _ => (a, [runSaveToLine toks])
